@@ -39,7 +39,7 @@ ASSUMPTIONS = ['an invalid entry must raise (ValueError or TypeError for plain w
                'threads: sampled line-granularity schedules; absence of a race is not established']
 # the exhaustive depth<=2 sweep (never non-trivial: the rule asks for depth >= 3) is part of the
 # kind:single denominator
-FLOORS = {'single:nontrivial': (0.05, 'kind:single'), 'successive:nontrivial': (0.5, 'kind:successive'), 'entry:invalid': (0.3, 'kind:single'),
+FLOORS = {'single:nontrivial': (0.04, 'kind:single'), 'successive:nontrivial': (0.5, 'kind:successive'), 'entry:invalid': (0.3, 'kind:single'),
           'entry:raising-object': (0.08, 'kind:single'), 'exit:raise': (0.3, 'kind:single'),
           'threads:nontrivial': (0.3, 'kind:threads')}
 TECHNIQUE = ('model-based property testing of scope-entry programs (generated trees + exhaustive '
@@ -135,6 +135,44 @@ def run_program(nodes, observe, captured, labels, yield_now=lambda: None, depth=
       observe(call=False)
     elif kind == 'call':
       observe(call=True)
+    elif kind == 'by-object':
+      # the configurable obtained by *object* (no scope in sight) while some scope is active: it
+      # is the version for the scope active now, whatever was active the last time it was asked for
+      got = gin.get_configurable(_probe)()
+      want = M.overlay(BINDINGS, observe.stack.current).get('p', 'default')
+      require(got == want, 'lookup-by-object',
+              lambda: f'get_configurable(probe)() under {observe.stack.current}: {got!r}, '
+                      f'expected {want!r}')
+      labels.add('lookup-by-object-under-a-scope')
+    elif kind == 'decorated':
+      # config_scope(name) as a decorator on a function that calls itself: every level enters the
+      # scope once more and leaves it again, whether it returns or raises
+      _, name, levels, how = node
+      model = observe.stack
+
+      @gin.config_scope(name)
+      def rec(d):
+        model.enter(name)
+        try:
+          observe(call=True, what=f'decorated level {d}')
+          if d > 1:
+            try:
+              rec(d - 1)
+            except _BodyError:
+              if how != 'raise-caught':
+                raise
+            observe(call=True, what=f'decorated level {d} after the inner call')
+          elif how in ('raise', 'raise-caught'):
+            raise _BodyError()
+        finally:
+          model.exit()
+
+      try:
+        rec(levels)
+      except _BodyError:
+        pass
+      labels.add('config_scope-as-decorator-on-recursive-function')
+      observe(call=True, what='after the decorated recursion')
     elif kind == 'reload':
       # the configuration is cleared and loaded again inside whatever scopes are open: clearing
       # the bindings has nothing to do with the scopes that are active
@@ -444,7 +482,9 @@ _valid_spec = st.one_of(
 
 
 def _nodes(depth, spec=_spec, single=False):
-  leaf = st.sampled_from(([['reload']] if single else []) + [['check'], ['call'], ['scribble'], ['make', 'b'], ['make', 'x/y'],
+  leaf = st.sampled_from(([['reload'], ['decorated', 'a', 2, 'normal'], ['decorated', 'x/y', 3, 'raise'],
+                           ['decorated', 'b', 2, 'raise-caught'], ['decorated', 'a', 1, 'normal']]
+                          if single else []) + [['by-object'], ['check'], ['call'], ['scribble'], ['make', 'b'], ['make', 'x/y'],
                           ['scoped-call', 0], ['scoped-call', 1],
                           ['scoped-call', 2], ['scoped-call', 4]])
   if depth <= 0:
